@@ -40,6 +40,7 @@ package mp
 //@ func calcIndex
 //@ props C13 C15
 //@ nilsafe
+//@ modifies nothing
 //@ requires iter != nil
 //@ ensures [a-valid-index] imp(result1 == nil, 0 <= result0 && result0 < length)
 //@ ensures [numbers-wrap-around] imp(result1 == nil && indexStr != "next" && indexStr != "rand" && indexStr != "last" && result_of(strconv.Atoi, 0) >= 0, result0 == result_of(strconv.Atoi, 0) % length)
@@ -50,10 +51,12 @@ package mp
 //@ func extractFromSlice
 //@ props C13 C15
 //@ nilsafe
+//@ modifies nothing
 //@ requires iter != nil
 
 //@ func GetMapValue
 //@ props C13 C15
 //@ nilsafe
+//@ modifies nothing
 //@ requires iter != nil
 //@ at call extractFromSlice assert [next-counter-is-per-path] arg(curSegment) == result_of(curSegment.String, 0) && arg(iter) == iter0
